@@ -388,6 +388,18 @@ def s06_ma_dispatch(ctx):
                 calls_in = [x[4] for x in walk_tree(pay) if x[0] == 'call']
                 if not any(c.endswith('::parse') or c.endswith('FromStr::from_str') for c in calls_in):
                     r.violate('MA::%s|from_str|period-not-parsed' % variant, 'from_str builds %s with %s instead of the parsed period' % (variant, tree_str(pay)[:80]), fb.file, fb.line)
+            elif inner[0] == 'call' and inner[1] == 'indirect' and isinstance(inner[3], int) and len(inner[2]) == 1:
+                # the arm chose the variant *constructor* as a function value, applied to the period after the match: `Ok(constructor(length))`
+                fo = fb.blocks[inner[3]]['term']['callee'].get('fn_op')
+                ft = fb.tree_of_operand(fo, 0, pf.env) if fo else None
+                while isinstance(ft, tuple) and ft and ft[0] in ('cast', 'ref', 'deref'):
+                    ft = ft[2] if ft[0] == 'cast' else ft[1]
+                if isinstance(ft, tuple) and ft and ft[0] == 'fn' and str(ft[1]).startswith(MA['path'] + '::') and str(ft[1]).rsplit('::', 1)[-1] in variants:
+                    variant = str(ft[1]).rsplit('::', 1)[-1]
+                    pay = _try_payload(inner[2][0])
+                    calls_in = [x[4] for x in walk_tree(pay) if x[0] == 'call']
+                    if not any(c.endswith('::parse') or c.endswith('FromStr::from_str') for c in calls_in):
+                        r.violate('MA::%s|from_str|period-not-parsed' % variant, 'from_str builds %s with %s instead of the parsed period' % (variant, tree_str(pay)[:80]), fb.file, fb.line)
         if len(trues) == 1:
             lit = trues[0]
             r.inst('MA|from_str|"%s"' % lit)
